@@ -91,10 +91,13 @@ func svcSessions(run *vh.Run, n int) {
 		state := func() string {
 			return fmt.Sprintf("seq=%d running=%d target=%d", sy.Seq, b2i(sy.VerifC17IsRunning()), sy.VerifC17Target())
 		}
+		// every real action is one `svc` line (model Svc: the counters) and one `sys` line (model Sys: the
+		// whole session behind Receive's filter, verifySeq and the dispatch); both must give the real state
 		emit := func(line string) {
 			o := state()
 			ops = append(ops, line+" => "+o)
 			run.Op(line, o, sy.VerifC17IsRunning())
+			run.Op("sys"+line[3:], o, sy.VerifC17IsRunning())
 		}
 		emit("svc new")
 		for step := 0; step < 14; step++ {
@@ -143,15 +146,42 @@ func svcSessions(run *vh.Run, n int) {
 					}
 				}
 			default:
-				// other stale traffic must change nothing
-				k := kinds[1+rng.Intn(len(kinds)-2)]
-				if k == "addBlockRsp" || k == "blockChunksReq" {
-					k = "hashesRsp"
+				// any other kind of message, with a stale sequence, or with the running session's own sequence for
+				// the kinds that are inert while only the finder exists (the others are driven by their own parts:
+				// hashesRsp needs a hash fetcher; hashByNoRsp with the current sequence is the late-finder-reply
+				// hazard, see lateFinderReply)
+				k := kinds[1+rng.Intn(len(kinds)-1)]
+				seq := sy.Seq - 1 - uint64(rng.Intn(2))
+				if rng.Intn(3) == 0 {
+					switch k {
+					case "anchorsRsp", "ancestorRsp", "blockChunksRsp", "addBlockRsp", "closeFetcher", "blockChunksReq", "other", "syncStop":
+						seq = sy.Seq
+					}
 				}
-				sy.Receive(actorCtx{m: mkMsg(k, sy.Seq-1)})
-				run.Eval("svc-stale", false)
-				if sy.VerifC17IsRunning() != wasRunning || sy.Seq != seq0 {
-					run.Fail("a stale message changed the session", map[string]interface{}{"session": ops, "kind": k})
+				if k == "finderResult" || ((k == "hashesRsp" || k == "hashByNoRsp") && seq == sy.Seq) {
+					k = "blockChunksRsp"
+				}
+				for len(notify) > 0 {
+					<-notify
+				}
+				sy.Receive(actorCtx{m: mkMsg(k, seq)})
+				o := state()
+				line := fmt.Sprintf("sys msg %s %d", k, seq)
+				ops = append(ops, line+" => "+o)
+				run.Op(line, o, sy.VerifC17IsRunning())
+				run.Op(fmt.Sprintf("svc stop %d", func() uint64 {
+					if k == "syncStop" {
+						return seq
+					}
+					return 0 // a sequence no session has: the counters model must not move either
+				}()), o, sy.VerifC17IsRunning())
+				run.Count("sys:msg:" + map[bool]string{true: "current", false: "stale"}[seq == seq0])
+				stops := wasRunning && k == "syncStop" && seq == seq0
+				if !stops && (sy.VerifC17IsRunning() != wasRunning || sy.Seq != seq0) {
+					run.Fail("a message that is not a stop of the running session changed the session", map[string]interface{}{"session": ops, "kind": k})
+				}
+				if stops && sy.VerifC17IsRunning() {
+					run.Fail("session not torn down by a stop of its own sequence", map[string]interface{}{"session": ops})
 				}
 			}
 		}
@@ -234,7 +264,15 @@ func recvSessions(run *vh.Run, n int) {
 		ops = append(ops, line)
 		pos := 0
 		stName := []string{"waiting", "canceled", "finished"}
+		var sent []*types.Block // blocks of the parts that reached the receiver while it was waiting, in order
+		answered := false
 		for part := 0; part < 5; part++ {
+			// the time limit may elapse in the middle of the exchange
+			if !timedOut && part > 0 && rng.Intn(10) == 0 {
+				br.VerifC17Expire()
+				timedOut = true
+				run.Count("recv:expires-mid-exchange")
+			}
 			// the next part of the answer
 			k := 1 + rng.Intn(3)
 			var blocks []*types.Block
@@ -288,6 +326,9 @@ func recvSessions(run *vh.Run, n int) {
 			line := fmt.Sprintf("recv part %d %d %d %s", b2i(timedOut), b2i(statusOK), b2i(hasNext), bl)
 			act.sent = nil
 			st0, _ := br.VerifC17State()
+			if st0 == 0 && !timedOut && statusOK {
+				sent = append(sent, blocks...)
+			}
 			o, panicked := vh.Guard(func() string {
 				br.ReceiveResp(nil, gb)
 				return "nothing"
@@ -312,10 +353,41 @@ func recvSessions(run *vh.Run, n int) {
 					run.Fail("chunk receiver answered for another session or peer", map[string]interface{}{"session": ops})
 				}
 			}
-			if len(act.sent) > 1 || (st0 != 0 && len(act.sent) > 0) {
+			if len(act.sent) > 1 || (st0 != 0 && len(act.sent) > 0) || (answered && len(act.sent) > 0) {
 				run.Fail("chunk receiver answered more than once for one request", map[string]interface{}{"session": ops})
 			}
+			if len(act.sent) > 0 {
+				answered = true
+			}
 			st1, off := br.VerifC17State()
+			// oracle (receiver_holds_prefix): what the receiver holds is a prefix of the request and of what the peer sent
+			got := br.VerifC17Got()
+			for j, b := range got {
+				if j >= len(want) || string(b.GetHash()) != string(want[j]) {
+					run.Fail("chunk receiver holds a block that is not the requested one at its position", map[string]interface{}{"session": ops})
+					break
+				}
+				if j >= len(sent) || sent[j] != b {
+					run.Fail("chunk receiver holds a block the peer did not send at that position", map[string]interface{}{"session": ops})
+					break
+				}
+			}
+			// oracle (receiver_forwards_exactly): a success answer is exactly what the peer sent, up to this part
+			for _, m := range act.sent {
+				if r := m.(*message.GetBlockChunksRsp); r.Err == nil {
+					same := len(r.Blocks) == len(sent) && !hasNext
+					for j := 0; same && j < len(sent); j++ {
+						same = r.Blocks[j] == sent[j]
+					}
+					if !same {
+						run.Fail("chunk receiver forwarded something else than the blocks the peer sent (or before the last part)", map[string]interface{}{"session": ops})
+					}
+				}
+			}
+			// oracle (receiver_timeout_is_silent): a part after the time limit produces no message
+			if timedOut && len(act.sent) > 0 {
+				run.Fail("chunk receiver answered the syncer after its time limit", map[string]interface{}{"session": ops})
+			}
 			if !panicked {
 				o += fmt.Sprintf(" st=%s got=%d", stName[st1%3], off)
 			}
@@ -337,4 +409,48 @@ func joinComma(l []string) string {
 		s += x
 	}
 	return s
+}
+
+// lateFinderReply: the reply to a finder probe that is queued in the syncer's mailbox before the finder's timer
+// fires and handled after it (the actor was busy meanwhile), i.e. mailbox order [GetHashByNoRsp, SyncStop].
+// handleGetHashByNoRsp hands it over with a blocking send on the unbuffered fScanCh; the finder goroutine has
+// returned, so the send never completes: the syncer actor is stuck, the finder's own SyncStop behind it is
+// never processed. Returns whether the real Receive call blocked.
+func lateFinderReply(run *vh.Run) bool {
+	local := newChain(nil, -1, 5, 13001)
+	req := &recReq{}
+	sy := syncer.NewSyncer(nil, &memChain{local}, syncer.VerifC17NewCfg(3, 2, 2, 2, 30*time.Millisecond, true))
+	sy.SetRequester(req)
+	notify := make(chan error, 4)
+	sy.Receive(actorCtx{m: &message.SyncStart{PeerID: peerID(0), TargetNo: 9, NotifyC: notify}})
+	var stop *message.SyncStop
+	asked := false
+	for i := 0; i < 600 && stop == nil; i++ {
+		time.Sleep(5 * time.Millisecond)
+		for _, m := range req.take() {
+			switch x := m.(type) {
+			case *message.GetHashByNo:
+				asked = true
+			case *message.SyncStop:
+				stop = x
+			}
+		}
+	}
+	if !asked || stop == nil {
+		run.Count("late-finder-reply:setup-failed")
+		return false
+	}
+	done := make(chan struct{})
+	go func() {
+		defer func() { _ = recover() }()
+		sy.Receive(actorCtx{m: &message.GetHashByNoRsp{Seq: sy.Seq, BlockHash: local.hashAt(2)}})
+		close(done)
+	}()
+	select {
+	case <-done:
+		sy.Receive(actorCtx{m: stop})
+		return false
+	case <-time.After(400 * time.Millisecond):
+		return true
+	}
 }
